@@ -12,7 +12,7 @@ import (
 
 func init() {
 	register(&Def{ID: "C09", Engine: "E1", Run: runC09,
-		Rule: "cross product: {Inner, MatVecMul, MatMul, Outer, TensorMul, Dot, Trace} x float32/float64/complex64/complex128 x all operand shape combinations with dims <= 3 (vector forms (n),(n,1),(1,n); matrices; rank-3 tensors with every valid contraction axis pair and pair list) x layout of each operand (L5 x L5) x {safe, reuse, incr, reuse+incr} x value sets {integer-valued (exact), fractional (tolerance)}; " +
+		Rule: "cross product: {Inner, MatVecMul, MatMul, Outer, TensorMul, Dot, Trace} x float32/float64/complex64/complex128 x all operand shape combinations with dims <= 3 (thorough: <= 4, plus lengths 5, 7, 9, 17 on both sides of the widths the BLAS kernels unroll by) (vector forms (n),(n,1),(1,n); matrices; rank-3 tensors with every valid contraction axis pair and pair list) x layout of each operand (L5 x L5) x {safe, reuse, incr, reuse+incr, lazily transposed and non-contiguous view destinations, a destination that IS one of the operands, a destination that cannot hold the result, the unsafe option next to a reuse tensor} x {two operands, the same tensor as both operands} x vector operands of unequal lengths in every vector form (refusal space) x value sets {integer-valued (exact), fractional (tolerance)}; " +
 			"every result element is compared with the textbook sum of products of the model arrays; operands (storage + metadata) and caller-owned axes slices must be unchanged; any refusal (error or panic) is accepted, a wrong value never. non-trivial = every operand has >= 2 elements",
 		Assume: []string{"reference sums are accumulated in the operand type in index order; integer-valued inputs make every summation order exact", "gonum BLAS is part of the implementation under test"}})
 }
@@ -179,7 +179,15 @@ func laExec(r *core.Run, c laCase) (*core.Fail, string) {
 	var arrB ref.Arr
 	if c.op != "Trace" {
 		bv := dotVals(d, ref.Prod(c.sb), c.vs, 2)
-		B = buildVerified(d, c.sb, bv, c.lb)
+		if c.lb == "=a" {
+			// the SAME tensor as both operands
+			if !ref.EqInts(c.sa, c.sb) {
+				return nil, "skip:=a"
+			}
+			B, bv = A, av
+		} else {
+			B = buildVerified(d, c.sb, bv, c.lb)
+		}
 		if B == nil {
 			return nil, "skip:" + c.lb
 		}
@@ -408,19 +416,21 @@ func laExec(r *core.Run, c laCase) (*core.Fail, string) {
 	what := fmt.Sprintf("%s of %v (%s) and %v (%s) mode %s", c.op, c.sa, c.la, c.sb, c.lb, c.mode)
 	// (an operand that is also the destination: written when the call succeeds; when it is refused its ELEMENTS are what
 	// they were - the bookkeeping of a destination (view flag, pending transpose) is normalised before the engine is asked)
-	if aliased == "a" && o.Class != "ok" {
+	aliasA := aliased == "a" || (aliased != "" && c.lb == "=a")
+	aliasB := aliased == "b" || (aliased != "" && c.lb == "=a")
+	if aliasA && o.Class != "ok" {
 		if cells := A.ChangedCells(snapA); len(cells) > 0 {
 			return core.F("operand-changed", "a", "%s was refused (%s) but changed elements %v of operand a, which was also the destination", what, o.Class, clip(cells)), o.Class
 		}
-	} else if ch := A.Changed(snapA); ch != "" && aliased != "a" {
+	} else if ch := A.Changed(snapA); ch != "" && !aliasA {
 		return core.F("operand-changed", "a", "%s changed operand a: %s (outcome %s)", what, ch, o.Class), o.Class
 	}
 	if B != nil {
-		if aliased == "b" && o.Class != "ok" {
+		if aliasB && o.Class != "ok" {
 			if cells := B.ChangedCells(snapB); len(cells) > 0 {
 				return core.F("operand-changed", "b", "%s was refused (%s) but changed elements %v of operand b, which was also the destination", what, o.Class, clip(cells)), o.Class
 			}
-		} else if ch := B.Changed(snapB); ch != "" && aliased != "b" {
+		} else if ch := B.Changed(snapB); ch != "" && !aliasB {
 			return core.F("operand-changed", "b", "%s changed operand b: %s (outcome %s)", what, ch, o.Class), o.Class
 		}
 	}
@@ -525,6 +535,9 @@ func c09Tag(c laCase, kind string) string {
 func runC09(r *core.Run) {
 	quick := isQuick(r)
 	maxd := 3
+	if !quick {
+		maxd = 4
+	}
 	dts := ref.FC4
 	modes := []string{"safe", "reuse", "incr", "reuse+incr", "reuse:T", "incr:T", "reuse:S", "incr:S", "reuse=a", "reuse=b", "incr=a", "incr=b", "unsafe+reuse", "unsafe+reuse:S", "reuse:misfit", "unsafe+reuse:misfit"}
 	lays := atlas.L5 // incl. Cl, the CLONE of a sliced view: strided storage that is not a view
@@ -532,6 +545,73 @@ func runC09(r *core.Run) {
 	r.SetBound("dims", fmt.Sprintf("every dimension in 1..%d; rank-3 tensors for TensorMul/Dot", maxd))
 	c09Perms(r)
 	vecForms := func(n int) [][]int { return [][]int{{n}, {n, 1}, {1, n}} }
+	// thorough: lengths on both sides of the widths the BLAS kernels unroll by (4, 8, 16)
+	if !quick {
+		for _, d := range dts {
+			for _, la := range lays {
+				for _, lb := range lays {
+					if !r.Take() {
+						continue
+					}
+					for _, n := range []int{5, 7, 9, 17} {
+						for _, api := range []string{"method", "func"} {
+							laRun(r, laCase{op: "Inner", d: d, sa: []int{n}, sb: []int{n}, la: la, lb: lb, mode: "safe", vs: "int", api: api})
+						}
+						for _, mode := range []string{"safe", "reuse", "incr", "reuse:S"} {
+							laRun(r, laCase{op: "MatVecMul", d: d, sa: []int{3, n}, sb: []int{n}, la: la, lb: lb, mode: mode, vs: "int", api: "method"})
+							laRun(r, laCase{op: "MatVecMul", d: d, sa: []int{n, 3}, sb: []int{3}, la: la, lb: lb, mode: mode, vs: "int", api: "method"})
+							laRun(r, laCase{op: "MatMul", d: d, sa: []int{2, n}, sb: []int{n, 2}, la: la, lb: lb, mode: mode, vs: "int", api: "method"})
+							laRun(r, laCase{op: "MatMul", d: d, sa: []int{n, 2}, sb: []int{2, n}, la: la, lb: lb, mode: mode, vs: "frac", api: "method"})
+							laRun(r, laCase{op: "Outer", d: d, sa: []int{n}, sb: []int{3}, la: la, lb: lb, mode: mode, vs: "int", api: "method"})
+							laRun(r, laCase{op: "Dot", d: d, sa: []int{n, 2}, sb: []int{2, n}, la: la, lb: lb, mode: mode, vs: "int", api: "func"})
+						}
+					}
+				}
+			}
+		}
+	}
+	// the same tensor as BOTH operands (x.x, x (x) x, A.A, A contracted with itself), in every layout and mode
+	for _, d := range dts {
+		for _, la := range lays {
+			if !r.Take() {
+				continue
+			}
+			for _, vs := range vss {
+				for m := 1; m <= maxd; m++ {
+					for _, fa := range vecForms(m) {
+						for _, api := range []string{"method", "func"} {
+							laRun(r, laCase{op: "Inner", d: d, sa: fa, sb: fa, la: la, lb: "=a", mode: "safe", vs: vs, api: api})
+						}
+						for _, mode := range modes {
+							laRun(r, laCase{op: "Outer", d: d, sa: fa, sb: fa, la: la, lb: "=a", mode: mode, vs: vs, api: "method"})
+							if mode != "reuse+incr" {
+								laRun(r, laCase{op: "Dot", d: d, sa: fa, sb: fa, la: la, lb: "=a", mode: mode, vs: vs, api: "func"})
+							}
+						}
+					}
+					for _, mode := range modes {
+						laRun(r, laCase{op: "MatMul", d: d, sa: []int{m, m}, sb: []int{m, m}, la: la, lb: "=a", mode: mode, vs: vs, api: "method"})
+						laRun(r, laCase{op: "MatMul", d: d, sa: []int{m, m}, sb: []int{m, m}, la: la, lb: "=a", mode: mode, vs: vs, api: "func"})
+						if mode != "reuse+incr" {
+							laRun(r, laCase{op: "Dot", d: d, sa: []int{m, m}, sb: []int{m, m}, la: la, lb: "=a", mode: mode, vs: vs, api: "func"})
+						}
+					}
+				}
+				for _, sa := range [][]int{{2, 2}, {3, 3}, {2, 2, 2}, {2, 3, 2}} {
+					for i := range sa {
+						for j := range sa {
+							if sa[i] != sa[j] {
+								continue
+							}
+							for _, api := range []string{"method", "func"} {
+								laRun(r, laCase{op: "TensorMul", d: d, sa: sa, sb: sa, la: la, lb: "=a", mode: "safe", vs: vs, api: api, axA: []int{i}, axB: []int{j}})
+							}
+						}
+					}
+				}
+			}
+		}
+	}
 	for _, d := range dts {
 		for _, la := range lays {
 			for _, lb := range lays {
@@ -555,14 +635,18 @@ func runC09(r *core.Run) {
 								laRun(r, laCase{op: "Dot", d: d, sa: fa, sb: fb, la: la, lb: lb, mode: "safe", vs: vs, api: "func"})
 							}
 							// unequal lengths (among them the length of the other operand's storage WINDOW): must be refused
-							if len(fa) == 1 && vs == "int" {
+							if vs == "int" {
 								for _, m2 := range []int{m + 1, 2 * m, m + 2} {
 									if m2 == m {
 										continue
 									}
-									for _, api := range []string{"method", "func"} {
-										laRun(r, laCase{op: "Inner", d: d, sa: fa, sb: []int{m2}, la: la, lb: lb, mode: "safe", vs: vs, api: api})
-										laRun(r, laCase{op: "Inner", d: d, sa: []int{m2}, sb: fa, la: la, lb: lb, mode: "safe", vs: vs, api: api})
+									for _, fb := range vecForms(m2) {
+										for _, api := range []string{"method", "func"} {
+											laRun(r, laCase{op: "Inner", d: d, sa: fa, sb: fb, la: la, lb: lb, mode: "safe", vs: vs, api: api})
+											laRun(r, laCase{op: "Inner", d: d, sa: fb, sb: fa, la: la, lb: lb, mode: "safe", vs: vs, api: api})
+										}
+										laRun(r, laCase{op: "Dot", d: d, sa: fa, sb: fb, la: la, lb: lb, mode: "safe", vs: vs, api: "func"})
+										laRun(r, laCase{op: "Dot", d: d, sa: fb, sb: fa, la: la, lb: lb, mode: "safe", vs: vs, api: "func"})
 									}
 								}
 							}
